@@ -1557,6 +1557,12 @@ func (fr *Frame) execSelect(st *State, i *ssa.Select) {
 	}
 	// ghost: the chosen case is visible to contracts as ret("select")
 	fr.afterCall(st, "select", vals[0])
+	// ghost: whether a send case was the one taken: counttrue0("sendcase.taken") counts the sends that happened
+	for k, sc := range i.States {
+		if sc.Dir == types.SendOnly && sc.Send != nil {
+			fr.afterCall(st, "sendcase.taken", Val{T: eq(idx, fmt.Sprint(k)), S: "Bool", Ty: types.Typ[types.Bool]})
+		}
+	}
 }
 
 func (fr *Frame) execDefer(st *State, i *ssa.Defer) {
